@@ -150,6 +150,8 @@ def behaviour(rec):
         tail = rec.path[len("/users/"):]
         if not tail.isdigit() or int(tail) % 5 == 0:
             return json_response(404, {})
+        if (rec.method == "PATCH" and int(tail) % 3 == 1) or (rec.method == "DELETE" and int(tail) % 2 == 1):
+            return json_response(500, {"error": "scripted"})      # a failure the stateful phase finds quickly: its suite is re-run (seed + 1)
         if rec.method == "DELETE":
             return 204, [], b""
         return json_response(200, {"id": int(tail), "name": "x"})
@@ -159,16 +161,17 @@ def behaviour(rec):
 # --------------------------------------------------------------------------------------------------------------------
 # configurations
 # --------------------------------------------------------------------------------------------------------------------
-QUICK = [  # (schema, phases, modes)
-    ("params", ["coverage"], ["positive", "negative"]),
+METHODS = ["delete", "put", "patch", "trace", "options", "post"]   # user-supplied `unexpected_methods` (a set of >= 2 methods)
+QUICK = [  # (schema, phases, modes[, extras: fixed seed / unexpected_methods])
+    ("params", ["coverage"], ["positive", "negative"], {"unexpected_methods": METHODS}),
     ("params", ["coverage"], ["positive"]),
-    ("params", ["fuzzing"], ["positive"]),
+    ("params", ["fuzzing"], ["positive"], {"seed": 0}),
     ("params", ["examples", "coverage", "fuzzing"], ["negative"]),
     ("bodies", ["examples"], ["positive"]),
-    ("bodies", ["coverage"], ["positive", "negative"]),
+    ("bodies", ["coverage"], ["positive", "negative"], {"unexpected_methods": METHODS[1:], "seed": 0}),
     ("bodies", ["fuzzing"], ["positive", "negative"]),
-    ("links", ["stateful"], ["positive"]),
-    ("links", ["fuzzing", "stateful"], ["positive", "negative"]),
+    ("links", ["stateful"], ["positive"], {"seed": 0}),                               # seed 0 is a seed like any other
+    ("links", ["fuzzing", "stateful"], ["positive", "negative"], {"seed": -1}),       # the suite re-run after a failure is seeded with -1 + 1 = 0
     ("multi", ["examples", "coverage"], ["positive"]),
     ("multi", ["fuzzing", "stateful"], ["negative"]),
     ("multi", ["examples", "coverage", "fuzzing", "stateful"], ["positive", "negative"]),
@@ -187,13 +190,28 @@ def configurations(ctx: Ctx) -> list[dict]:
         allc = [(s, p, m) for s in ("params", "bodies", "links", "multi") for p in subsets for m in modes
                 if "stateful" not in p or s in ("links", "multi")]
         rng.shuffle(allc)
-        base = list(QUICK) + [c for c in allc if c not in QUICK]
-        base = (base * 2)[:150]            # 96 distinct (schema, phases, modes) + repeats with other seeds
-    for i, (s, p, m) in enumerate(base):
+        quick3 = {c[:3] for c in QUICK}
+        base = list(QUICK) + [c for c in allc if c not in quick3]
+        base = (base + [c for c in allc])[:150]            # 96 distinct (schema, phases, modes) + repeats with other seeds / extras
+    for i, c in enumerate(base):
+        s, p, m = c[:3]
+        extras = dict(c[3]) if len(c) > 3 else {}
         seed = rng.randrange(1, 2 ** 31 - 1)
-        out.append({"id": i, "schema": s, "phases": p, "modes": m, "seed": seed, "seed2": seed + 1 + rng.randrange(1000),
-                    "h1": rng.randrange(1, 4000), "h2": rng.randrange(4001, 8000), "max_examples": 5 if ctx.quick else 6, "steps": 4 if ctx.quick else 5,
-                    "diff": (not ctx.quick) or i % 2 == 0})
+        h1, h2 = rng.randrange(1, 4000), rng.randrange(4001, 8000)
+        extra_rnd = rng.randrange(1000)
+        if not ctx.quick and i >= len(QUICK):
+            # "for all seeds": 0 and -1 (whose per-suite increment reaches 0) are seeds too; user-supplied method sets in negative coverage
+            if i % 8 == 0:
+                extras["seed"] = 0
+            elif i % 8 == 4:
+                extras["seed"] = -1
+            if "coverage" in p and "negative" in m and i % 3 == 0:
+                k = 2 + i % 5
+                extras["unexpected_methods"] = METHODS[i % 2:][:k]
+        seed = extras.get("seed", seed)
+        out.append({"id": i, "schema": s, "phases": p, "modes": m, "seed": seed, "seed2": abs(seed) + 1 + extra_rnd,
+                    "h1": h1, "h2": h2, "max_examples": 5 if ctx.quick else 6, "steps": 4 if ctx.quick else 5,
+                    "diff": (not ctx.quick) or i % 2 == 0, "unexpected_methods": extras.get("unexpected_methods")})
     return out
 
 
@@ -287,7 +305,8 @@ class Digests:
 def run_config(args) -> dict:
     cfg, workdir = args
     wd = os.path.join(workdir, "cfg-%d" % cfg["id"])
-    one = {"seed": cfg["seed"], "workers": 1, "phases": cfg["phases"], "modes": cfg["modes"], "max_examples": cfg["max_examples"], "steps": cfg["steps"]}
+    one = {"seed": cfg["seed"], "workers": 1, "phases": cfg["phases"], "modes": cfg["modes"], "max_examples": cfg["max_examples"], "steps": cfg["steps"],
+           "unexpected_methods": cfg.get("unexpected_methods")}
     plan = [("A", cfg["h1"], [dict(one, tag="A")]), ("B", cfg["h2"], [dict(one, tag="B")]),
             ("C", cfg["h1"], [dict(one, tag="A1"), dict(one, tag="A2")]),
             ("E", cfg["h1"], [dict(one, tag="W3", workers=3)] + ([dict(one, tag="D", seed=cfg["seed2"])] if cfg.get("diff", True) else []))]
@@ -464,6 +483,11 @@ def run(ctx: Ctx) -> Outcome:
     st = evaluate(ctx, out, results)
     if st["vacuous"] or (st["diff_units"] and not st["diff_differ"]):
         raise tlc.TLCFailure("vacuous harness: no pair of runs with different seeds differs (%d compared)" % st["diff_units"])
+    # seed -1: the stateful suite that is re-run after a failure is seeded with 0 - make sure that path was really taken
+    rollover = sum(1 for r in results if r["cfg"]["seed"] == -1 and "stateful" in r["cfg"]["phases"]
+                   and any(json.loads(f)[0] == "STATEFUL_TESTING" for f in r["runs"]["A"]["failures"]))
+    if not rollover:
+        raise tlc.TLCFailure("no configuration with seed -1 had a failing first stateful suite: the re-seeding with 0 was not exercised")
     requests_total = sum(len(rs) for r in results for run_ in r["runs"].values() for rs in run_["phases"].values())
     outside = sum(run_["outside"] for r in results for run_ in r["runs"].values())
     out.coverage = {
@@ -482,6 +506,10 @@ def run(ctx: Ctx) -> Outcome:
                       "schemas": sorted({c["schema"] for c in cfgs}), "comparisons": [p[5] for p in PAIRS]},
         "units_accepted": st["accepted"], "units_rejected": st["units"] - st["accepted"], "requests_compared(lines)": st["lines"],
         "different_seed_units": st["diff_units"], "different_seed_units_that_differ": st["diff_differ"],
+        "seeds_0_and_minus_1": {"configurations_with_seed_0": sum(1 for c in cfgs if c["seed"] == 0),
+                                "configurations_with_seed_-1": sum(1 for c in cfgs if c["seed"] == -1),
+                                "stateful_suite_re-run_with_seed_0_after_a_failure": rollover},
+        "configurations_with_user_supplied_unexpected_methods": sum(1 for c in cfgs if c.get("unexpected_methods")),
         "requests_outside_phases": outside, "skipped_outside_fragment": 0,
         "requests_per_phase": {ph: sum(len(run_["phases"].get(ph, [])) for r in results for run_ in r["runs"].values()) for ph in PH.values()},
         "config_wall_s": [round(r["wall"], 1) for r in results],
